@@ -403,3 +403,710 @@ Proof.
     + discriminate.
     + apply (st_le_nofault _ _ L Hnf).
 Qed.
+
+(* ================================================================ Part 3: make-owner and normalisation *)
+(* ---------------------------------------------------------------- lists *)
+Inductive sublist {A} : list A -> list A -> Prop :=
+| sl_nil : sublist [] []
+| sl_skip x l1 l2 : sublist l1 l2 -> sublist l1 (x :: l2)
+| sl_cons x l1 l2 : sublist l1 l2 -> sublist (x :: l1) (x :: l2).
+
+Lemma sublist_refl {A} (l : list A) : sublist l l.
+Proof. induction l; constructor; assumption. Qed.
+Lemma sublist_nil {A} (l : list A) : sublist [] l.
+Proof. induction l; constructor; assumption. Qed.
+Lemma sublist_app {A} (a a' b b' : list A) : sublist a a' -> sublist b b' -> sublist (a ++ b) (a' ++ b').
+Proof.
+  intros H. induction H; intros Hb; cbn [app]; [exact Hb|apply sl_skip; auto|apply sl_cons; auto].
+Qed.
+Lemma sublist_In {A} (a b : list A) x : sublist a b -> In x a -> In x b.
+Proof. intros H. induction H; intros Hi; cbn in *; tauto. Qed.
+Lemma sublist_trans {A} (b c : list A) : sublist b c -> forall a, sublist a b -> sublist a c.
+Proof.
+  intros H. induction H; intros a Ha.
+  - exact Ha.
+  - constructor. apply IHsublist. exact Ha.
+  - inversion Ha; subst; constructor; apply IHsublist; assumption.
+Qed.
+Lemma sublist_NoDup {A} (a b : list A) : sublist a b -> NoDup b -> NoDup a.
+Proof.
+  intros H. induction H; intros Hn.
+  - constructor.
+  - inversion Hn; subst. auto.
+  - inversion Hn; subst. constructor; [|auto]. intros Hi. apply H2. eapply sublist_In; eassumption.
+Qed.
+Lemma sublist_Forall {A} (P : A -> Prop) (a b : list A) : sublist a b -> Forall P b -> Forall P a.
+Proof. intros H Hf. apply Forall_forall. intros x Hx. eapply Forall_forall; [exact Hf|]. eapply sublist_In; eassumption. Qed.
+Lemma sublist_app_r {A} (a b : list A) : sublist b (a ++ b).
+Proof. induction a; cbn [app]; [apply sublist_refl|constructor; assumption]. Qed.
+Lemma sublist_app_l {A} (a b : list A) : sublist a (a ++ b).
+Proof. rewrite <- (app_nil_r a) at 1. apply sublist_app; [apply sublist_refl|apply sublist_nil]. Qed.
+
+Lemma NoDup_app_intro {A} (a b : list A) :
+  NoDup a -> NoDup b -> (forall x, In x a -> In x b -> False) -> NoDup (a ++ b).
+Proof.
+  induction a as [|x a IH]; intros Ha Hb Hd; cbn [app]; [exact Hb|].
+  inversion Ha; subst. constructor.
+  - rewrite in_app_iff. intros [H|H]; [tauto|]. apply (Hd x); [left; reflexivity|exact H].
+  - apply IH; [assumption|assumption|]. intros y Hy1 Hy2. apply (Hd y); [right; exact Hy1|exact Hy2].
+Qed.
+Lemma NoDup_app_l {A} (a b : list A) : NoDup (a ++ b) -> NoDup a.
+Proof. apply sublist_NoDup. apply sublist_app_l. Qed.
+Lemma NoDup_app_r {A} (a b : list A) : NoDup (a ++ b) -> NoDup b.
+Proof. apply sublist_NoDup. apply sublist_app_r. Qed.
+Lemma NoDup_app_disj {A} (a b : list A) x : NoDup (a ++ b) -> In x a -> In x b -> False.
+Proof.
+  induction a as [|y a IH]; intros Hn Ha Hb; [destruct Ha|].
+  cbn [app] in Hn. inversion Hn; subst. destruct Ha as [->|Ha].
+  - apply H1. rewrite in_app_iff. right; exact Hb.
+  - apply IH; assumption.
+Qed.
+
+Fixpoint upd {A} (i : nat) (x : A) (l : list A) : list A :=
+  match l, i with
+  | [], _ => []
+  | _ :: r, O => x :: r
+  | y :: r, S k => y :: upd k x r
+  end.
+
+Lemma upd_nth_same {A} (d : A) l : forall i, upd i (nth i l d) l = l.
+Proof. induction l as [|y r IH]; intros [|k]; cbn; try reflexivity. rewrite IH. reflexivity. Qed.
+
+Lemma in_concat_upd {A} (X : list A) x parts : forall i,
+  In x (concat (upd i X parts)) -> In x X \/ In x (concat parts).
+Proof.
+  induction parts as [|Y r IH]; intros [|k] H; cbn [upd concat] in *; try tauto.
+  - rewrite in_app_iff in *. tauto.
+  - rewrite in_app_iff in *. destruct H as [H|H]; [tauto|]. destruct (IH _ H); tauto.
+Qed.
+
+Lemma concat_upd_sub {A} (X : list A) parts : forall i,
+  sublist X (nth i parts []) -> sublist (concat (upd i X parts)) (concat parts).
+Proof.
+  induction parts as [|Y r IH]; intros [|k] H; cbn [upd concat nth] in *; try apply sublist_refl.
+  - apply sublist_app; [exact H|apply sublist_refl].
+  - apply sublist_app; [apply sublist_refl|apply IH; exact H].
+Qed.
+
+Lemma concat_upd_fresh (X : list nat) lo n hi parts : forall i,
+  NoDup (concat parts) -> Forall (fun b => lo <= b < n) (concat parts) ->
+  NoDup X -> Forall (fun b => n <= b < hi) X -> lo <= n -> n <= hi ->
+  NoDup (concat (upd i X parts)) /\ Forall (fun b => lo <= b < hi) (concat (upd i X parts)).
+Proof.
+  intros i Hnd Hf HX HXf Hlo Hhi.
+  assert (Forall (fun b => lo <= b < hi) (concat (upd i X parts))) as Hall.
+  { apply Forall_forall. intros x Hx. destruct (in_concat_upd _ _ _ _ Hx) as [H|H].
+    - rewrite Forall_forall in HXf. specialize (HXf _ H). lia.
+    - rewrite Forall_forall in Hf. specialize (Hf _ H). lia. }
+  split; [|exact Hall]. clear Hall.
+  revert i Hnd Hf. induction parts as [|Y r IH]; intros [|k] Hnd Hf; cbn [upd concat] in *; try constructor.
+  - apply NoDup_app_intro; [exact HX|eapply NoDup_app_r; exact Hnd|].
+    intros x H1 H2. rewrite Forall_forall in HXf, Hf. specialize (HXf _ H1).
+    assert (In x (Y ++ concat r)) as H3 by (rewrite in_app_iff; tauto). specialize (Hf _ H3). lia.
+  - apply Forall_app in Hf. destruct Hf as [HfY Hfr].
+    apply NoDup_app_intro; [eapply NoDup_app_l; exact Hnd|apply IH; [eapply NoDup_app_r; exact Hnd|exact Hfr]|].
+    intros x H1 H2. destruct (in_concat_upd _ _ _ _ H2) as [H|H].
+    + rewrite Forall_forall in HXf, HfY. specialize (HXf _ H). specialize (HfY _ H1). lia.
+    + eapply NoDup_app_disj; eassumption.
+Qed.
+
+(* ---------------------------------------------------------------- the block invariant *)
+(* the text blocks of the object are pairwise distinct and were all handed out since block id [lo] *)
+Definition Inv (lo : nat) (m : muri) (s : mstate) : Prop :=
+  lo <= ms_next s /\ NoDup (text_blocks m) /\ Forall (fun b => lo <= b < ms_next s) (text_blocks m).
+
+Lemma inv_fresh lo m s m' s' i X :
+  Inv lo m s -> block_parts m' = upd i X (block_parts m) ->
+  NoDup X -> Forall (fun b => ms_next s <= b < ms_next s') X -> ms_next s <= ms_next s' -> Inv lo m' s'.
+Proof.
+  intros (H1 & H2 & H3) Hb HX HXf Hle. unfold Inv, text_blocks in *. rewrite Hb.
+  destruct (concat_upd_fresh X lo (ms_next s) (ms_next s') (block_parts m) i H2 H3 HX HXf H1 Hle) as [A B].
+  split; [lia|]. split; assumption.
+Qed.
+
+Lemma inv_sub lo m s m' s' i X :
+  Inv lo m s -> block_parts m' = upd i X (block_parts m) ->
+  sublist X (nth i (block_parts m) []) -> ms_next s <= ms_next s' -> Inv lo m' s'.
+Proof.
+  intros (H1 & H2 & H3) Hb HX Hle. unfold Inv, text_blocks in *. rewrite Hb.
+  pose proof (concat_upd_sub X (block_parts m) i HX) as Hs.
+  split; [lia|]. split; [eapply sublist_NoDup; eassumption|].
+  eapply sublist_Forall; [exact Hs|]. eapply Forall_impl; [|exact H3]. cbn. intros; lia.
+Qed.
+
+Lemma inv_same lo m s m' s' :
+  Inv lo m s -> block_parts m' = block_parts m -> ms_next s <= ms_next s' -> Inv lo m' s'.
+Proof.
+  intros (H1 & H2 & H3) Hb Hle. unfold Inv, text_blocks in *. rewrite Hb.
+  split; [lia|]. split; [assumption|]. eapply Forall_impl; [|exact H3]. cbn. intros; lia.
+Qed.
+
+(* one text component is replaced by itself or by a copy in the block just handed out *)
+Definition text_step (t t' : mtext) (s s' : mstate) : Prop :=
+  (text_blk t' = text_blk t /\ ms_next s' = ms_next s)
+  \/ (sublist (text_blk t') [ms_next s] /\ ms_next s' = S (ms_next s)).
+
+Lemma inv_text_step lo m s m' s' i t t' :
+  Inv lo m s -> nth i (block_parts m) [] = text_blk t ->
+  block_parts m' = upd i (text_blk t') (block_parts m) -> text_step t t' s s' -> Inv lo m' s'.
+Proof.
+  intros HI Hn Hb [[E1 E2]|[E1 E2]].
+  - eapply inv_same; [exact HI| |lia]. rewrite Hb, E1, <- Hn. apply upd_nth_same.
+  - eapply inv_fresh; [exact HI|exact Hb| | |lia].
+    + eapply sublist_NoDup; [exact E1|]. constructor; [intros []|constructor].
+    + eapply sublist_Forall; [exact E1|]. constructor; [lia|constructor].
+Qed.
+
+(* ---------------------------------------------------------------- components and the done-mask *)
+Inductive comp := CScheme | CUser | CHost | CPath | CQuery | CFrag | CPort.
+Definition cidx (c : comp) : N :=
+  match c with CScheme => 0 | CUser => 1 | CHost => 2 | CPath => 3 | CQuery => 4 | CFrag => 5 | CPort => 6 end%N.
+Definition comp_owned (c : comp) (m : muri) : bool :=
+  match c with
+  | CScheme => text_owned (m_scheme m) | CUser => text_owned (m_userInfo m) | CHost => host_owned m
+  | CPath => forallb seg_owned (m_segs m) | CQuery => text_owned (m_query m)
+  | CFrag => text_owned (m_fragment m) | CPort => text_owned (m_portText m)
+  end.
+
+Lemma all_owned_comps m : (forall c, comp_owned c m = true) -> all_owned m = true.
+Proof.
+  intros H. unfold all_owned.
+  pose proof (H CScheme) as H1. pose proof (H CUser) as H2. pose proof (H CHost) as H3.
+  pose proof (H CPort) as H4. pose proof (H CPath) as H5. pose proof (H CQuery) as H6. pose proof (H CFrag) as H7.
+  cbn [comp_owned] in *. rewrite H1, H2, H3, H4, H5, H6, H7. reflexivity.
+Qed.
+Lemma all_owned_comp m c : all_owned m = true -> comp_owned c m = true.
+Proof.
+  unfold all_owned. intros H. repeat (apply andb_prop in H; destruct H as [H ?]). destruct c; assumption.
+Qed.
+
+Local Open Scope N_scope.
+(* the test "done & bit" of the C code is a bit test *)
+Lemma land_pow2 d k : (N.land d (2 ^ k) =? 0) = negb (N.testbit d k).
+Proof.
+  destruct (N.testbit d k) eqn:E; cbn [negb].
+  - apply N.eqb_neq. intros H. apply (f_equal (fun x => N.testbit x k)) in H.
+    rewrite N.land_spec, E, N.pow2_bits_true, N.bits_0 in H. discriminate H.
+  - apply N.eqb_eq. apply N.bits_inj. intros j. rewrite N.land_spec, N.bits_0, N.pow2_bits_eqb.
+    destruct (k =? j) eqn:Ej; [apply N.eqb_eq in Ej; subst j; rewrite E; reflexivity|apply andb_false_r].
+Qed.
+Lemma testbit_lor_pow2 d k j : N.testbit (N.lor d (2 ^ k)) j = N.testbit d j || (k =? j).
+Proof. rewrite N.lor_spec, N.pow2_bits_eqb. reflexivity. Qed.
+
+Definition sub (a b : N) : Prop := forall k, N.testbit a k = true -> N.testbit b k = true.
+Lemma sub_refl a : sub a a. Proof. intros k H; exact H. Qed.
+Lemma sub_trans a b c : sub a b -> sub b c -> sub a c. Proof. intros H1 H2 k H; auto. Qed.
+Lemma sub_lor a b k : sub a b -> sub (N.lor a (2 ^ k)) (N.lor b (2 ^ k)).
+Proof. intros H j. rewrite !testbit_lor_pow2. intros Hj. apply orb_prop in Hj. destruct Hj as [Hj|Hj]; [rewrite (H _ Hj); reflexivity|rewrite Hj; apply orb_true_r]. Qed.
+Lemma sub_lor_r a k : sub a (N.lor a (2 ^ k)).
+Proof. intros j Hj. rewrite testbit_lor_pow2, Hj. reflexivity. Qed.
+Lemma sub_0 a : sub 0 a. Proof. intros k H. rewrite N.bits_0 in H. discriminate H. Qed.
+Local Close Scope N_scope.
+
+(* what is carried from stage to stage: no faults, the block invariant, the shared host range, and
+   every component flagged in [own] is owned *)
+Definition G (lo : nat) (own : N) (m : muri) (s : mstate) : Prop :=
+  nofault s /\ Inv lo m s /\ mwf_host m /\ (forall c, N.testbit own (cidx c) = true -> comp_owned c m = true).
+
+Lemma mkG lo own m s : nofault s -> Inv lo m s -> mwf_host m ->
+  (forall c, N.testbit own (cidx c) = true -> comp_owned c m = true) -> G lo own m s.
+Proof. intros A B C D. split; [exact A|split; [exact B|split; [exact C|exact D]]]. Qed.
+
+Definition stage := muri -> N -> mstate -> option (muri * N) * mstate.
+
+(* a stage of the engine or of normalisation of a borrowed object: it succeeds, keeps [G], its effect
+   on the values is [F]; [must] is the component it makes owned whatever the mask says *)
+Definition stage_spec (st : stage) (F : uri -> uri) (must : option comp) : Prop :=
+  forall lo own m done s, G lo own m s -> sub done own -> m_owner m = false ->
+  exists m' done' own' s', st m done s = (Some (m', done'), s')
+    /\ G lo own' m' s' /\ sub done' own' /\ sub own own' /\ erase m' = F (erase m) /\ m_owner m' = false
+    /\ st_le s s'
+    /\ match must with Some c => N.testbit own' (cidx c) = true | None => True end.
+
+
+Lemma cidx_inj c c' : cidx c = cidx c' -> c = c'.
+Proof. destruct c, c'; intros H; try reflexivity; discriminate H. Qed.
+Lemma comp_eq_dec (c c' : comp) : {c = c'} + {c <> c'}.
+Proof. decide equality. Qed.
+
+Section Ops.
+Variable cs : N.
+
+(* ---------------------------------------------------------------- primitives without faults *)
+Lemma dup_text_nf t s : nofault s ->
+  exists t' s', dup_text cs t s = (Some t', s') /\ t_val t' = t_val t /\ text_owned t' = true
+    /\ text_step t t' s s' /\ st_le s s'.
+Proof.
+  intros Hnf. unfold dup_text. destruct (t_val t) as [[|c x]|] eqn:E.
+  - exists t, s. unfold text_owned. rewrite E. split; [reflexivity|]. split; [reflexivity|]. split; [reflexivity|].
+    split; [left; split; reflexivity|apply st_le_refl].
+  - rewrite (alloc_nf _ _ _ Hnf). eexists; eexists. split; [reflexivity|]. cbn [t_val]. split; [reflexivity|].
+    split; [reflexivity|]. split; [|apply push_alloc_le]. right. split; [apply sublist_refl|reflexivity].
+  - exists t, s. unfold text_owned. rewrite E. split; [reflexivity|]. split; [reflexivity|]. split; [reflexivity|].
+    split; [left; split; reflexivity|apply st_le_refl].
+Qed.
+
+Lemma range_owner_nf done k t s : nofault s ->
+  exists t' done' s', range_owner cs done (2 ^ k) t s = (Some (t', done'), s') /\ t_val t' = t_val t
+    /\ ((N.testbit done k = true -> text_owned t = true) -> text_owned t' = true)
+    /\ (done' = done \/ done' = N.lor done (2 ^ k))
+    /\ text_step t t' s s' /\ st_le s s'.
+Proof.
+  intros Hnf. unfold range_owner. rewrite land_pow2, negb_involutive.
+  destruct (N.testbit done k) eqn:Eb.
+  - exists t, done, s. split; [reflexivity|]. split; [reflexivity|]. split; [intros H; apply H; reflexivity|].
+    split; [left; reflexivity|]. split; [left; split; reflexivity|apply st_le_refl].
+  - destruct (t_val t) as [[|c x]|] eqn:E.
+    + exists t, done, s. unfold text_owned. rewrite E. split; [reflexivity|]. split; [reflexivity|]. split; [reflexivity|].
+      split; [left; reflexivity|]. split; [left; split; reflexivity|apply st_le_refl].
+    + destruct (dup_text_nf t s Hnf) as (t' & s' & E1 & V1 & O1 & T1 & L1). rewrite E1.
+      exists t', (N.lor done (2 ^ k)), s'. split; [reflexivity|]. split; [congruence|]. split; [intros _; exact O1|].
+      split; [right; reflexivity|]. split; assumption.
+    + exists t, done, s. unfold text_owned. rewrite E. split; [reflexivity|]. split; [reflexivity|]. split; [reflexivity|].
+      split; [left; reflexivity|]. split; [left; split; reflexivity|apply st_le_refl].
+Qed.
+
+Lemma norm_text_nf f t s x : nofault s -> f [] = [] -> t_val t = Some x ->
+  exists t' s', norm_text cs false f t s = (Some t', s') /\ t_val t' = Some (f x) /\ text_owned t' = true
+    /\ text_step t t' s s' /\ st_le s s'.
+Proof.
+  intros Hnf Hf E. unfold norm_text. rewrite E. destruct x as [|c x].
+  - exists t, s. unfold text_owned. rewrite E, Hf. split; [reflexivity|]. split; [reflexivity|]. split; [reflexivity|].
+    split; [left; split; reflexivity|apply st_le_refl].
+  - rewrite (alloc_nf _ _ _ Hnf). eexists; eexists. split; [reflexivity|]. cbn [t_val]. split; [reflexivity|].
+    split; [unfold text_owned; cbn; destruct (f (c :: x)); reflexivity|]. split; [|apply push_alloc_le].
+    right. split; [|reflexivity]. unfold text_blk. cbn [t_val t_blk blk_list].
+    destruct (f (c :: x)); [apply sublist_nil|apply sublist_refl].
+Qed.
+
+(* ---------------------------------------------------------------- text components, generically *)
+Definition e_text (bv : N) (get : muri -> mtext) (set : mtext -> muri -> muri) : stage :=
+  fun m done s =>
+    match range_owner cs done bv (get m) s with
+    | (None, s') => (None, s')
+    | (Some (t, d), s') => (Some (set t m, d), s')
+    end.
+
+Definition n_text (cond : bool) (f : text -> text) (bv : N) (get : muri -> mtext) (set : mtext -> muri -> muri) : stage :=
+  fun m done s =>
+    if cond && is_some (t_val (get m)) then
+      match norm_text cs false f (get m) s with
+      | (Some t, s') => (Some (set t m, N.lor done bv), s')
+      | (None, s') => (None, s')
+      end
+    else (Some (m, done), s).
+
+Section TextComp.
+Variables (k : N) (c : comp) (get : muri -> mtext) (set : mtext -> muri -> muri) (i : nat)
+          (pget : uri -> option text) (pset : option text -> uri -> uri).
+Hypothesis Hk : cidx c = k.
+Hypothesis Hparts : forall t m, block_parts (set t m) = upd i (text_blk t) (block_parts m).
+Hypothesis Hnth : forall m, nth i (block_parts m) [] = text_blk (get m).
+Hypothesis Hown_set : forall t m, comp_owned c (set t m) = text_owned t.
+Hypothesis Hown_get : forall m, comp_owned c m = text_owned (get m).
+Hypothesis Hframe : forall c' t m, c' <> c -> comp_owned c' (set t m) = comp_owned c' m.
+Hypothesis Herase : forall t m, erase (set t m) = pset (t_val t) (erase m).
+Hypothesis Hpget : forall m, pget (erase m) = t_val (get m).
+Hypothesis Hpsame : forall u, pset (pget u) u = u.
+Hypothesis Hhost : forall t m, mwf_host m -> mwf_host (set t m).
+Hypothesis Howner : forall t m, m_owner (set t m) = m_owner m.
+
+Lemma own_after_set own t m :
+  (forall c', N.testbit own (cidx c') = true -> comp_owned c' m = true) -> text_owned t = true ->
+  forall c', N.testbit (N.lor own (2 ^ k)) (cidx c') = true -> comp_owned c' (set t m) = true.
+Proof.
+  intros HG Ht c' Hb. destruct (comp_eq_dec c' c) as [->|Hne].
+  - rewrite Hown_set. exact Ht.
+  - rewrite (Hframe _ _ _ Hne). apply HG. rewrite testbit_lor_pow2 in Hb.
+    apply orb_prop in Hb. destruct Hb as [Hb|Hb]; [exact Hb|].
+    apply N.eqb_eq in Hb. rewrite <- Hk in Hb. apply cidx_inj in Hb. congruence.
+Qed.
+
+Lemma e_text_spec : stage_spec (e_text (2 ^ k) get set) (fun u => u) (Some c).
+Proof.
+  intros lo own m done s (Hnf & HI & Hh & HG) Hsub Ho. unfold e_text.
+  destruct (range_owner_nf done k (get m) s Hnf) as (t' & d' & s' & E & V & O & D & T & L). rewrite E.
+  exists (set t' m), d', (N.lor own (2 ^ k)), s'. split; [reflexivity|].
+  assert (text_owned t' = true) as Ht'.
+  { apply O. intros Hb. rewrite <- Hown_get. apply HG. rewrite Hk. apply Hsub. exact Hb. }
+  split; [|split; [|split; [|split; [|split; [|split]]]]].
+  - split; [apply (st_le_nofault _ _ L Hnf)|]. split; [eapply inv_text_step; [exact HI|apply Hnth|apply Hparts|exact T]|].
+    split; [apply Hhost; exact Hh|]. apply own_after_set; assumption.
+  - destruct D as [->| ->]; [eapply sub_trans; [exact Hsub|apply sub_lor_r]|apply sub_lor; exact Hsub].
+  - apply sub_lor_r.
+  - rewrite Herase, V, <- Hpget. apply Hpsame.
+  - rewrite Howner. exact Ho.
+  - exact L.
+  - rewrite testbit_lor_pow2, Hk, N.eqb_refl. apply orb_true_r.
+Qed.
+
+Lemma n_text_spec cond f : f [] = [] ->
+  stage_spec (n_text cond f (2 ^ k) get set) (fun u => if cond then pset (omap f (pget u)) u else u) None.
+Proof.
+  intros Hf lo own m done s (Hnf & HI & Hh & HG) Hsub Ho. unfold n_text.
+  destruct cond; cbn [andb].
+  - destruct (t_val (get m)) as [x|] eqn:Ev; cbn [is_some].
+    + destruct (norm_text_nf f (get m) s x Hnf Hf Ev) as (t' & s' & E & V & O & T & L). rewrite E.
+      exists (set t' m), (N.lor done (2 ^ k)), (N.lor own (2 ^ k)), s'. split; [reflexivity|].
+      split; [|split; [|split; [|split; [|split; [|split]]]]].
+      * split; [apply (st_le_nofault _ _ L Hnf)|]. split; [eapply inv_text_step; [exact HI|apply Hnth|apply Hparts|exact T]|].
+        split; [apply Hhost; exact Hh|]. apply own_after_set; assumption.
+      * apply sub_lor; exact Hsub.
+      * apply sub_lor_r.
+      * rewrite Herase, V, Hpget, Ev. reflexivity.
+      * rewrite Howner. exact Ho.
+      * exact L.
+      * exact I.
+    + exists m, done, own, s. split; [reflexivity|].
+      split; [apply mkG; assumption|]. split; [exact Hsub|]. split; [apply sub_refl|].
+      split; [rewrite Hpget, Ev; cbn [omap]; rewrite <- Ev, <- Hpget; symmetry; apply Hpsame|].
+      split; [exact Ho|]. split; [apply st_le_refl|exact I].
+  - exists m, done, own, s. split; [reflexivity|].
+    split; [apply mkG; assumption|]. split; [exact Hsub|]. split; [apply sub_refl|].
+    split; [reflexivity|]. split; [exact Ho|]. split; [apply st_le_refl|exact I].
+Qed.
+End TextComp.
+
+Lemma own_after own c m m' :
+  (forall c', N.testbit own (cidx c') = true -> comp_owned c' m = true) ->
+  (forall c', c' <> c -> comp_owned c' m' = comp_owned c' m) -> comp_owned c m' = true ->
+  forall c', N.testbit (N.lor own (2 ^ cidx c)) (cidx c') = true -> comp_owned c' m' = true.
+Proof.
+  intros HG Hfr Hc c' Hb. destruct (comp_eq_dec c' c) as [->|Hne]; [exact Hc|].
+  rewrite (Hfr _ Hne). apply HG. rewrite testbit_lor_pow2 in Hb.
+  apply orb_prop in Hb. destruct Hb as [Hb|Hb]; [exact Hb|].
+  apply N.eqb_eq in Hb. apply cidx_inj in Hb. congruence.
+Qed.
+
+Ltac tcomp_solve :=
+  first [ reflexivity
+        | (intros c' t m Hne; destruct c'; try reflexivity; congruence)
+        | (intros u; destruct u; reflexivity)
+        | (intros t m H; exact H) ].
+
+Lemma e_scheme_spec : stage_spec (e_text B_SCHEME m_scheme set_m_scheme) (fun u => u) (Some CScheme).
+Proof. apply (e_text_spec 0 CScheme m_scheme set_m_scheme 0%nat scheme set_scheme); tcomp_solve. Qed.
+Lemma e_user_spec : stage_spec (e_text B_USER m_userInfo set_m_userInfo) (fun u => u) (Some CUser).
+Proof. apply (e_text_spec 1 CUser m_userInfo set_m_userInfo 1%nat userInfo set_userInfo); tcomp_solve. Qed.
+Lemma e_query_spec : stage_spec (e_text B_QUERY m_query set_m_query) (fun u => u) (Some CQuery).
+Proof. apply (e_text_spec 4 CQuery m_query set_m_query 6%nat query set_query); tcomp_solve. Qed.
+Lemma e_frag_spec : stage_spec (e_text B_FRAG m_fragment set_m_fragment) (fun u => u) (Some CFrag).
+Proof. apply (e_text_spec 5 CFrag m_fragment set_m_fragment 7%nat fragment set_fragment); tcomp_solve. Qed.
+
+Lemma n_scheme_spec cond f : f [] = [] ->
+  stage_spec (n_text cond f B_SCHEME m_scheme set_m_scheme)
+             (fun u => if cond then set_scheme (omap f (scheme u)) u else u) None.
+Proof. apply (n_text_spec 0 CScheme m_scheme set_m_scheme 0%nat scheme set_scheme); tcomp_solve. Qed.
+Lemma n_user_spec cond f : f [] = [] ->
+  stage_spec (n_text cond f B_USER m_userInfo set_m_userInfo)
+             (fun u => if cond then set_userInfo (omap f (userInfo u)) u else u) None.
+Proof. apply (n_text_spec 1 CUser m_userInfo set_m_userInfo 1%nat userInfo set_userInfo); tcomp_solve. Qed.
+Lemma n_query_spec cond f : f [] = [] ->
+  stage_spec (n_text cond f B_QUERY m_query set_m_query)
+             (fun u => if cond then set_query (omap f (query u)) u else u) None.
+Proof. apply (n_text_spec 4 CQuery m_query set_m_query 6%nat query set_query); tcomp_solve. Qed.
+Lemma n_frag_spec cond f : f [] = [] ->
+  stage_spec (n_text cond f B_FRAG m_fragment set_m_fragment)
+             (fun u => if cond then set_fragment (omap f (fragment u)) u else u) None.
+Proof. apply (n_text_spec 5 CFrag m_fragment set_m_fragment 7%nat fragment set_fragment); tcomp_solve. Qed.
+
+(* ---------------------------------------------------------------- the path loop of make-owner *)
+Lemma own_segs_nf rest : forall acc s, nofault s ->
+  exists segs' s', own_segs cs acc rest s = (Some (rev acc ++ segs'), s')
+    /\ map sg_text segs' = map sg_text rest /\ map sg_node segs' = map sg_node rest
+    /\ forallb seg_owned segs' = true /\ st_le s s'
+    /\ NoDup (flat_map seg_blk segs')
+    /\ Forall (fun b => ms_next s <= b < ms_next s') (flat_map seg_blk segs').
+Proof.
+  induction rest as [|sg r IH]; intros acc s Hnf.
+  - exists [], s. cbn [own_segs]. rewrite app_nil_r. split; [reflexivity|]. split; [reflexivity|]. split; [reflexivity|].
+    split; [reflexivity|]. split; [apply st_le_refl|]. split; constructor.
+  - cbn [own_segs]. destruct (sg_text sg) as [|c x] eqn:Et.
+    + destruct (IH (sg :: acc) s Hnf) as (segs' & s' & E & V & Nn & O & L & ND & F).
+      exists (sg :: segs'), s'. rewrite E. cbn [rev]. rewrite <- app_assoc. cbn [app].
+      split; [reflexivity|]. cbn [map forallb flat_map]. rewrite V, Nn, O. unfold seg_owned, seg_blk. rewrite Et.
+      cbn [app andb]. repeat split; try assumption; apply L.
+    + rewrite (alloc_nf _ _ _ Hnf).
+      destruct (IH ({| sg_text := c :: x; sg_blk := Some (ms_next s); sg_node := sg_node sg |} :: acc)
+                   (push_alloc false (tlen (c :: x) * cs) s)
+                   (st_le_nofault _ _ (push_alloc_le _ _ _) Hnf)) as (segs' & s' & E & V & Nn & O & L & ND & F).
+      exists ({| sg_text := c :: x; sg_blk := Some (ms_next s); sg_node := sg_node sg |} :: segs'), s'.
+      rewrite E. cbn [rev]. rewrite <- app_assoc. cbn [app].
+      split; [reflexivity|]. cbn [map forallb flat_map sg_text sg_node]. rewrite V, Nn, O, Et.
+      unfold seg_owned at 1, seg_blk at 1 3. cbn [sg_text sg_blk is_some blk_list andb app].
+      destruct L as [L1 L2]. rewrite push_alloc_next in *. cbn [ms_plan push_alloc] in L1.
+      split; [reflexivity|]. split; [reflexivity|]. split; [reflexivity|]. split; [split; [exact L1|lia]|].
+      split.
+      * constructor; [|exact ND]. intros Hi. rewrite Forall_forall in F. specialize (F _ Hi). lia.
+      * constructor; [lia|]. eapply Forall_impl; [|exact F]. cbn. intros; lia.
+Qed.
+
+(* ---------------------------------------------------------------- the remaining stages of the engine *)
+Definition e_port : stage := fun m done s =>
+  match dup_text cs (m_portText m) s with
+  | (None, s') => (None, s')
+  | (Some t, s') => (Some (set_m_portText t m, done), s')
+  end.
+
+Definition host_step : stage := fun m done s =>
+  if negb (N.land done B_HOST =? 0)%N then (Some (m, done), s)
+  else match t_val (m_ipFuture m) with
+       | Some _ =>
+         match range_owner cs done B_HOST (m_ipFuture m) s with
+         | (None, s) => (None, s)
+         | (Some (t, done), s) =>
+           (Some (set_m_hostText {| t_val := t_val t; t_blk := None |} (set_m_ipFuture t m), done), s)
+         end
+       | None =>
+         match t_val (m_hostText m) with
+         | Some _ =>
+           match range_owner cs done B_HOST (m_hostText m) s with
+           | (None, s) => (None, s)
+           | (Some (t, done), s) => (Some (set_m_hostText t m, done), s)
+           end
+         | None => (Some (m, done), s)
+         end
+       end.
+
+Definition path_step : stage := fun m done s =>
+  if negb (N.land done B_PATH =? 0)%N then (Some (m, done), s)
+  else match own_segs cs [] (m_segs m) s with
+       | (Some segs, s) => (Some (set_m_segs segs m, N.lor done B_PATH), s)
+       | (None, s) => (None, s)
+       end.
+
+Lemma e_port_spec : stage_spec e_port (fun u => u) (Some CPort).
+Proof.
+  intros lo own m done s (Hnf & HI & Hh & HG) Hsub Ho. unfold e_port.
+  destruct (dup_text_nf (m_portText m) s Hnf) as (t' & s' & E & V & O & T & L). rewrite E.
+  exists (set_m_portText t' m), done, (N.lor own (2 ^ cidx CPort)), s'. split; [reflexivity|].
+  split; [|split; [|split; [|split; [|split; [|split]]]]].
+  - apply mkG; [apply (st_le_nofault _ _ L Hnf)| |exact Hh|].
+    + eapply (inv_text_step lo m s _ s' 4 (m_portText m) t'); [exact HI|reflexivity|reflexivity|exact T].
+    + apply (own_after own CPort m); [exact HG| |exact O].
+      intros c' Hne. destruct c'; try reflexivity. congruence.
+  - eapply sub_trans; [exact Hsub|apply sub_lor_r].
+  - apply sub_lor_r.
+  - unfold erase. cbn [m_scheme m_userInfo m_hostText m_ip4 m_ip6 m_ipFuture m_portText m_segs m_query m_fragment m_abs m_owner set_m_portText].
+    rewrite V. reflexivity.
+  - exact Ho.
+  - exact L.
+  - rewrite testbit_lor_pow2, N.eqb_refl. apply orb_true_r.
+Qed.
+
+Lemma host_step_spec : stage_spec host_step (fun u => u) (Some CHost).
+Proof.
+  intros lo own m done s (Hnf & HI & Hh & HG) Hsub Ho. unfold host_step.
+  change B_HOST with (2 ^ 2)%N. rewrite land_pow2, negb_involutive.
+  destruct (N.testbit done 2) eqn:Eb.
+  - (* already done *)
+    exists m, done, (N.lor own (2 ^ cidx CHost)), s. split; [reflexivity|].
+    split; [|split; [|split; [|split; [|split; [|split]]]]]; try reflexivity; try assumption.
+    + apply mkG; try assumption. apply (own_after own CHost m); [exact HG|reflexivity|].
+      apply HG. apply Hsub. exact Eb.
+    + eapply sub_trans; [exact Hsub|apply sub_lor_r].
+    + apply sub_lor_r.
+    + apply st_le_refl.
+    + rewrite testbit_lor_pow2, N.eqb_refl. apply orb_true_r.
+  - destruct (t_val (m_ipFuture m)) as [x|] eqn:Ef.
+    + (* IPvFuture: one block, recorded in ipFuture *)
+      destruct (range_owner_nf done 2 (m_ipFuture m) s Hnf) as (t' & d' & s' & E & V & O & D & T & L). rewrite E.
+      eexists; exists d', (N.lor own (2 ^ cidx CHost)), s'. split; [reflexivity|].
+      assert (text_owned t' = true) as Ht' by (apply O; intros Hb; rewrite Hb in Eb; discriminate Eb).
+      split; [|split; [|split; [|split; [|split; [|split]]]]].
+      * apply mkG; [apply (st_le_nofault _ _ L Hnf)| | |].
+        -- eapply (inv_sub lo (set_m_ipFuture t' m) s' _ s' 2 (text_blk {| t_val := t_val t'; t_blk := None |}));
+             [|reflexivity|rewrite text_blk_noblk; apply sublist_nil|lia].
+           eapply (inv_text_step lo m s _ s' 3 (m_ipFuture m) t'); [exact HI|reflexivity|reflexivity|exact T].
+        -- intros y Hy. cbn in *. exact Hy.
+        -- apply (own_after own CHost m); [exact HG|intros c' Hne; destruct c'; try reflexivity; congruence|].
+           cbn [comp_owned]. unfold host_owned. cbn [m_ipFuture m_hostText set_m_hostText set_m_ipFuture].
+           rewrite V, Ef. exact Ht'.
+      * destruct D as [->| ->]; [eapply sub_trans; [exact Hsub|apply sub_lor_r]|apply sub_lor; exact Hsub].
+      * apply sub_lor_r.
+      * unfold erase. cbn [m_scheme m_userInfo m_hostText m_ip4 m_ip6 m_ipFuture m_portText m_segs m_query m_fragment m_abs m_owner set_m_hostText set_m_ipFuture t_val].
+        rewrite V, Ef, (Hh x Ef). reflexivity.
+      * exact Ho.
+      * exact L.
+      * rewrite testbit_lor_pow2, N.eqb_refl. apply orb_true_r.
+    + destruct (t_val (m_hostText m)) as [x|] eqn:Eh.
+      * destruct (range_owner_nf done 2 (m_hostText m) s Hnf) as (t' & d' & s' & E & V & O & D & T & L). rewrite E.
+        eexists; exists d', (N.lor own (2 ^ cidx CHost)), s'. split; [reflexivity|].
+        assert (text_owned t' = true) as Ht' by (apply O; intros Hb; rewrite Hb in Eb; discriminate Eb).
+        split; [|split; [|split; [|split; [|split; [|split]]]]].
+        -- apply mkG; [apply (st_le_nofault _ _ L Hnf)| | |].
+           ++ eapply (inv_text_step lo m s _ s' 2 (m_hostText m) t'); [exact HI|reflexivity|reflexivity|exact T].
+           ++ intros y Hy. cbn in Hy. rewrite Ef in Hy. discriminate Hy.
+           ++ apply (own_after own CHost m); [exact HG|intros c' Hne; destruct c'; try reflexivity; congruence|].
+              cbn [comp_owned]. unfold host_owned. cbn [m_ipFuture m_hostText set_m_hostText].
+              rewrite Ef. exact Ht'.
+        -- destruct D as [->| ->]; [eapply sub_trans; [exact Hsub|apply sub_lor_r]|apply sub_lor; exact Hsub].
+        -- apply sub_lor_r.
+        -- unfold erase. cbn [m_scheme m_userInfo m_hostText m_ip4 m_ip6 m_ipFuture m_portText m_segs m_query m_fragment m_abs m_owner set_m_hostText t_val].
+           rewrite V. reflexivity.
+        -- exact Ho.
+        -- exact L.
+        -- rewrite testbit_lor_pow2, N.eqb_refl. apply orb_true_r.
+      * exists m, done, (N.lor own (2 ^ cidx CHost)), s. split; [reflexivity|].
+        split; [|split; [|split; [|split; [|split; [|split]]]]]; try reflexivity; try assumption.
+        -- apply mkG; try assumption. apply (own_after own CHost m); [exact HG|reflexivity|].
+           cbn [comp_owned]. unfold host_owned, text_owned. rewrite Ef, Eh. reflexivity.
+        -- eapply sub_trans; [exact Hsub|apply sub_lor_r].
+        -- apply sub_lor_r.
+        -- apply st_le_refl.
+        -- rewrite testbit_lor_pow2, N.eqb_refl. apply orb_true_r.
+Qed.
+
+Lemma path_step_spec : stage_spec path_step (fun u => u) (Some CPath).
+Proof.
+  intros lo own m done s (Hnf & HI & Hh & HG) Hsub Ho. unfold path_step.
+  change B_PATH with (2 ^ 3)%N. rewrite land_pow2, negb_involutive.
+  destruct (N.testbit done 3) eqn:Eb.
+  - exists m, done, (N.lor own (2 ^ cidx CPath)), s. split; [reflexivity|].
+    split; [|split; [|split; [|split; [|split; [|split]]]]]; try reflexivity; try assumption.
+    + apply mkG; try assumption. apply (own_after own CPath m); [exact HG|reflexivity|].
+      apply HG. apply Hsub. exact Eb.
+    + eapply sub_trans; [exact Hsub|apply sub_lor_r].
+    + apply sub_lor_r.
+    + apply st_le_refl.
+    + rewrite testbit_lor_pow2, N.eqb_refl. apply orb_true_r.
+  - destruct (own_segs_nf (m_segs m) [] s Hnf) as (segs' & s' & E & V & Nn & O & L & ND & F).
+    rewrite E. cbn [rev app].
+    exists (set_m_segs segs' m), (N.lor done (2 ^ 3)), (N.lor own (2 ^ cidx CPath)), s'. split; [reflexivity|].
+    split; [|split; [|split; [|split; [|split; [|split]]]]].
+    + apply mkG; [apply (st_le_nofault _ _ L Hnf)| |exact Hh|].
+      * eapply (inv_fresh lo m s _ s' 5 (flat_map seg_blk segs')); [exact HI|reflexivity|exact ND|exact F|apply L].
+      * apply (own_after own CPath m); [exact HG|intros c' Hne; destruct c'; try reflexivity; congruence|exact O].
+    + apply sub_lor; exact Hsub.
+    + apply sub_lor_r.
+    + unfold erase. cbn [m_scheme m_userInfo m_hostText m_ip4 m_ip6 m_ipFuture m_portText m_segs m_query m_fragment m_abs m_owner set_m_segs].
+      rewrite V. reflexivity.
+    + exact Ho.
+    + exact L.
+    + rewrite testbit_lor_pow2, N.eqb_refl. apply orb_true_r.
+Qed.
+
+(* ---------------------------------------------------------------- the engine as a chain of stages *)
+Definition engine' (m : muri) (done : N) (s : mstate) : bool * muri * N * mstate :=
+  match range_owner cs done B_SCHEME (m_scheme m) s with
+  | (None, s) => (false, m, done, s)
+  | (Some (t, done), s) =>
+    let m := set_m_scheme t m in
+    match range_owner cs done B_USER (m_userInfo m) s with
+    | (None, s) => (false, m, done, s)
+    | (Some (t, done), s) =>
+      let m := set_m_userInfo t m in
+      match range_owner cs done B_QUERY (m_query m) s with
+      | (None, s) => (false, m, done, s)
+      | (Some (t, done), s) =>
+        let m := set_m_query t m in
+        match range_owner cs done B_FRAG (m_fragment m) s with
+        | (None, s) => (false, m, done, s)
+        | (Some (t, done), s) =>
+          let m := set_m_fragment t m in
+          match host_step m done s with
+          | (None, s) => (false, m, done, s)
+          | (Some (m, done), s) =>
+            match path_step m done s with
+            | (None, s) => (false, set_m_segs [] m, done, s)
+            | (Some (m, done), s) =>
+              match dup_text cs (m_portText m) s with
+              | (None, s) => (false, m, done, s)
+              | (Some t, s) => (true, set_m_portText t m, done, s)
+              end
+            end
+          end
+        end
+      end
+    end
+  end.
+
+Lemma engine_unfold m done s : make_owner_engine cs m done s = engine' m done s.
+Proof. reflexivity. Qed.
+
+Lemma engine_chain m done s m1 d1 s1 m2 d2 s2 m3 d3 s3 m4 d4 s4 m5 d5 s5 m6 d6 s6 m7 d7 s7 :
+  e_text B_SCHEME m_scheme set_m_scheme m done s = (Some (m1, d1), s1) ->
+  e_text B_USER m_userInfo set_m_userInfo m1 d1 s1 = (Some (m2, d2), s2) ->
+  e_text B_QUERY m_query set_m_query m2 d2 s2 = (Some (m3, d3), s3) ->
+  e_text B_FRAG m_fragment set_m_fragment m3 d3 s3 = (Some (m4, d4), s4) ->
+  host_step m4 d4 s4 = (Some (m5, d5), s5) ->
+  path_step m5 d5 s5 = (Some (m6, d6), s6) ->
+  e_port m6 d6 s6 = (Some (m7, d7), s7) ->
+  make_owner_engine cs m done s = (true, m7, d7, s7).
+Proof.
+  intros H1 H2 H3 H4 H5 H6 H7. rewrite engine_unfold. unfold engine'. unfold e_text in H1, H2, H3, H4.
+  destruct (range_owner cs done B_SCHEME (m_scheme m) s) as [[[t a]|] z]; [|discriminate H1].
+  injection H1 as <- <- <-. cbv zeta.
+  destruct (range_owner cs a B_USER (m_userInfo (set_m_scheme t m)) z) as [[[t2 a2]|] z2]; [|discriminate H2].
+  injection H2 as <- <- <-.
+  destruct (range_owner cs a2 B_QUERY (m_query (set_m_userInfo t2 (set_m_scheme t m))) z2) as [[[t3 a3]|] z3]; [|discriminate H3].
+  injection H3 as <- <- <-.
+  destruct (range_owner cs a3 B_FRAG (m_fragment (set_m_query t3 (set_m_userInfo t2 (set_m_scheme t m)))) z3) as [[[t4 a4]|] z4]; [|discriminate H4].
+  injection H4 as <- <- <-.
+  rewrite H5, H6. unfold e_port in H7.
+  destruct (dup_text cs (m_portText m6) s6) as [[t7|] z7]; [|discriminate H7].
+  injection H7 as <- <- <-. reflexivity.
+Qed.
+
+Lemma engine_nf lo own m done s :
+  G lo own m s -> sub done own -> m_owner m = false ->
+  exists m' done' own' s', make_owner_engine cs m done s = (true, m', done', s')
+    /\ G lo own' m' s' /\ all_owned m' = true /\ erase m' = erase m /\ m_owner m' = false /\ st_le s s'.
+Proof.
+  intros HG Hs Ho.
+  destruct (e_scheme_spec lo own m done s HG Hs Ho) as (m1 & d1 & o1 & s1 & E1 & G1 & S1 & U1 & R1 & W1 & L1 & B1).
+  destruct (e_user_spec lo o1 m1 d1 s1 G1 S1 W1) as (m2 & d2 & o2 & s2 & E2 & G2 & S2 & U2 & R2 & W2 & L2 & B2).
+  destruct (e_query_spec lo o2 m2 d2 s2 G2 S2 W2) as (m3 & d3 & o3 & s3 & E3 & G3 & S3 & U3 & R3 & W3 & L3 & B3).
+  destruct (e_frag_spec lo o3 m3 d3 s3 G3 S3 W3) as (m4 & d4 & o4 & s4 & E4 & G4 & S4 & U4 & R4 & W4 & L4 & B4).
+  destruct (host_step_spec lo o4 m4 d4 s4 G4 S4 W4) as (m5 & d5 & o5 & s5 & E5 & G5 & S5 & U5 & R5 & W5 & L5 & B5).
+  destruct (path_step_spec lo o5 m5 d5 s5 G5 S5 W5) as (m6 & d6 & o6 & s6 & E6 & G6 & S6 & U6 & R6 & W6 & L6 & B6).
+  destruct (e_port_spec lo o6 m6 d6 s6 G6 S6 W6) as (m7 & d7 & o7 & s7 & E7 & G7 & S7 & U7 & R7 & W7 & L7 & B7).
+  exists m7, d7, o7, s7.
+  split; [exact (engine_chain _ _ _ _ _ _ _ _ _ _ _ _ _ _ _ _ _ _ _ _ _ _ _ _ E1 E2 E3 E4 E5 E6 E7)|].
+  split; [exact G7|]. split; [|split; [|split; [exact W7|]]].
+  - apply all_owned_comps. intros c. destruct G7 as (_ & _ & _ & Hown). apply Hown.
+    destruct c; cbn [cidx].
+    + apply U7, U6, U5, U4, U3, U2. exact B1.
+    + apply U7, U6, U5, U4, U3. exact B2.
+    + apply U7, U6. exact B5.
+    + apply U7. exact B6.
+    + apply U7, U6, U5, U4. exact B3.
+    + apply U7, U6, U5. exact B4.
+    + exact B7.
+  - rewrite R7, R6, R5, R4, R3, R2, R1. reflexivity.
+  - eapply st_le_trans; [exact L1|]. eapply st_le_trans; [exact L2|]. eapply st_le_trans; [exact L3|].
+    eapply st_le_trans; [exact L4|]. eapply st_le_trans; [exact L5|]. eapply st_le_trans; [exact L6|exact L7].
+Qed.
+
+(* ---------------------------------------------------------------- uriMakeOwnerMm *)
+Lemma G_start m s : nofault s -> mwf_host m -> text_blocks m = [] -> G (ms_next s) 0 m s.
+Proof.
+  intros Hnf Hh Hb. apply mkG; [exact Hnf| |exact Hh|].
+  - unfold Inv. rewrite Hb. split; [lia|]. split; constructor.
+  - intros c Hc. rewrite N.bits_0 in Hc. discriminate Hc.
+Qed.
+
+Lemma make_owner_m_owned m s : m_owner m = true -> make_owner_m cs m s = (URI_SUCCESS, m, s).
+Proof. intros H. unfold make_owner_m. rewrite H. reflexivity. Qed.
+
+Lemma erase_owned m : m_owner m = true -> set_owner true (erase m) = erase m.
+Proof. intros H. unfold set_owner, erase. cbn. rewrite H. reflexivity. Qed.
+
+Lemma make_owner_m_borrowed m s :
+  nofault s -> m_owner m = false -> mwf_host m -> text_blocks m = [] ->
+  exists m' s', make_owner_m cs m s = (URI_SUCCESS, m', s')
+    /\ erase m' = make_owner (erase m)
+    /\ m_owner m' = true /\ all_owned m' = true /\ mwf m'
+    /\ NoDup (text_blocks m')
+    /\ Forall (fun b => ms_next s <= b < ms_next s') (text_blocks m')
+    /\ nofault s'.
+Proof.
+  intros Hnf Ho Hh Hb. unfold make_owner_m. rewrite Ho.
+  destruct (engine_nf (ms_next s) 0 m 0 s (G_start m s Hnf Hh Hb) (sub_refl _) Ho)
+    as (m' & d' & own' & s' & E & (Hnf' & (I1 & I2 & I3) & Hh' & _) & Hall & Her & Ho' & L).
+  rewrite E. exists (set_m_owner true m'), s'. split; [reflexivity|].
+  split; [change (erase (set_m_owner true m')) with (set_owner true (erase m')); rewrite Her; reflexivity|].
+  split; [reflexivity|]. split; [exact Hall|].
+  split; [|split; [exact I2|split; [exact I3|exact Hnf']]].
+  split; [exact Hh'|]. split; [exact I2|]. split; [intros _; exact Hall|discriminate].
+Qed.
